@@ -3,6 +3,8 @@
 package cl
 
 import (
+	"math"
+
 	"github.com/ohler55/slip"
 )
 
@@ -142,7 +144,7 @@ func parseSubstituteArgs(f slip.Object, s *slip.Scope, args slip.List, depth int
 		s:     s,
 		rep:   args[0],
 		old:   args[1],
-		count: -1,
+		count: math.MaxInt,
 		end:   -1,
 	}
 	kargs := args[3:]
@@ -181,9 +183,10 @@ func parseSubstituteArgs(f slip.Object, s *slip.Scope, args slip.List, depth int
 	if v, ok := slip.GetArgsKeyValue(kargs, slip.Symbol(":count")); ok {
 		switch tv := v.(type) {
 		case slip.Fixnum:
-			sr.count = int(tv)
+			// a negative count behaves like zero
+			sr.count = max(int(tv), 0)
 		case nil:
-			// leave as -1 for now
+			// leave as unlimited
 		default:
 			slip.TypePanic(s, depth, ":count", v, "fixnum")
 		}
@@ -195,8 +198,8 @@ func (sr *subRep) replace(seq slip.List) slip.Object {
 	if sr.end < 0 || len(seq) < sr.end {
 		sr.end = len(seq)
 	}
-	if sr.count < 0 {
-		sr.count = len(seq)
+	if sr.count <= 0 {
+		return seq
 	}
 	if sr.rev {
 		for i := sr.end - 1; sr.start <= i; i-- {
@@ -222,11 +225,12 @@ func (sr *subRep) maybe(seq slip.List, i int) bool {
 	if sr.tc != nil {
 		if sr.tc.Call(sr.s, slip.List{sr.old, v}, sr.depth) != nil {
 			seq[i] = sr.rep
+			sr.count--
 		}
 	} else if slip.ObjectEqual(sr.old, v) {
 		seq[i] = sr.rep
+		sr.count--
 	}
-	sr.count--
 	return sr.count <= 0
 }
 
@@ -234,8 +238,8 @@ func (sr *subRep) replaceBytes(seq []byte) slip.Object {
 	if sr.end < 0 || len(seq) < sr.end {
 		sr.end = len(seq)
 	}
-	if sr.count < 0 {
-		sr.count = len(seq)
+	if sr.count <= 0 {
+		return slip.Octets(seq)
 	}
 	if sr.rev {
 		for i := sr.end - 1; sr.start <= i; i-- {
@@ -261,10 +265,11 @@ func (sr *subRep) maybeByte(seq []byte, i int) bool {
 	if sr.tc != nil {
 		if sr.tc.Call(sr.s, slip.List{sr.old, v}, sr.depth) != nil {
 			seq[i] = byte(sr.rep.(slip.Octet))
+			sr.count--
 		}
 	} else if slip.ObjectEqual(sr.old, v) {
 		seq[i] = byte(sr.rep.(slip.Octet))
+		sr.count--
 	}
-	sr.count--
 	return sr.count <= 0
 }
